@@ -38,8 +38,15 @@ func c38tLoaderStuck() (bool, string) {
 // leaves an empty or cut-short membership record next to intact ones. After the
 // restart the node must know exactly the intact memberships; the torn record
 // must neither be loaded nor stall or crash the load.
-func TestVerif_C38_BeaconTornRecord(t *testing.T) {
-	r := verifkit.Start(t, "C38", "beacon_torn_record")
+func TestVerif_C38_BeaconTornRecord(t *testing.T) { c38TornRecord(t, "C38") }
+
+// The same workload decides C19's storage clause for beacon memberships: an
+// undecodable persisted record is reported as an error (skipped), it never
+// crashes or stalls the node, and the decodable records next to it load.
+func TestVerif_C19_BeaconStoredGarbage(t *testing.T) { c38TornRecord(t, "C19") }
+
+func c38TornRecord(t *testing.T, prop string) {
+	r := verifkit.Start(t, prop, "beacon_torn_record")
 	defer r.Finish()
 	r.SetRule("real protected disk handle; a PRNG set of memberships (3 groups x 3 member indices) is registered, then a torn record (empty / first half / first 3 bytes / all-but-last-byte of a valid membership encoding) is written for a further member index, as a crash inside the storage write leaves it; the registry is restarted (NewGroupRegistry + LoadExistingGroups) on the same directory and must hold exactly the intact memberships. A load that has not returned after 20 s is judged from two goroutine dumps 1 s apart: load-pipeline goroutines parked on channel operations in both = deadlock (violation), anything else = inconclusive. non-trivial = the torn record sits in the directory of a group that also has intact memberships")
 	keys, err := c38BuildKeys()
